@@ -104,6 +104,8 @@ def run_case(c):
             m = ph.mesh
             fr, w = np.array(m.frequencies), np.array(m.weights)
             fmax, fmin = float(fr.max()), float(fr.min())
+            if fmax - fmin < 1e-6 * max(abs(fmax), 1e-12):
+                return {"skip": "flat spectrum on this mesh (TotalDos cannot build its default frequency grid)"}
             span = max(fmax - fmin, 1e-3)
             thm = TetrahedronMesh(ph.primitive, fr, m.mesh_numbers, np.array(m.grid_address, dtype="int64"), np.array(m.grid_mapping_table, dtype="int64"), m.ir_grid_points)
             wpts = np.array([fmin - 0.1 * span, fmin + 0.31 * span, fmin + 0.62 * span, fmax + 1e-6 * span + 1e-9, fmax + 0.2 * span])
